@@ -332,6 +332,71 @@ func (h *hist) wantCount(v *model.Node) (want int, lenient bool) {
 	return 1, false
 }
 
+// A removal affects only the addressed setting: whether a config that stays in
+// the tree answers IsDict / IsArray is the same before and after it. This is a
+// frame condition on the library alone (no model of the kinds is needed, what
+// an emptied or copied container answers in absolute terms stays unjudged): the
+// holder of the removed setting and every live handle are asked before and
+// after the call.
+type kindObs struct {
+	c         *ucfg.Config
+	n         *model.Node
+	what      string
+	holder    bool
+	dict, arr bool
+}
+
+func (h *hist) kindsBefore(t *handle, fs []model.Fld) []kindObs {
+	var out []kindObs
+	for _, x := range h.live() {
+		if x.n.IsSub() {
+			out = append(out, kindObs{c: x.c, n: x.n, what: x.desc})
+		}
+	}
+	if holder, ok := holderOf(t.n, fs); ok {
+		if p, ok := pathTo(h.root.n, holder); ok {
+			if c := h.libAt(p); c != nil {
+				out = append(out, kindObs{c: c, n: holder, what: "the holder (" + model.PathString(p) + ")", holder: true})
+			}
+		}
+		for i := range out {
+			out[i].holder = out[i].n == holder
+		}
+	}
+	for i := range out {
+		out[i].dict, out[i].arr = out[i].c.IsDict(), out[i].c.IsArray()
+	}
+	return out
+}
+
+func (h *hist) kindsAfter(before []kindObs, removed, lastName bool) {
+	for _, o := range before {
+		if !model.Reachable(h.root.n, o.n) {
+			continue // went away with the removed setting
+		}
+		h.res.Ev("kind_asked_before_and_after_remove", 1)
+		if o.holder && removed && lastName && len(o.n.D) == 0 {
+			h.res.Ev("removes_of_last_named_setting", 1)
+		}
+		if o.holder && removed && len(o.n.D)+len(o.n.A) == 0 {
+			h.res.Ev("removes_emptying_the_holder", 1)
+		}
+		d, a := o.c.IsDict(), o.c.IsArray()
+		if d == o.dict && a == o.arr {
+			continue
+		}
+		which, who := "isarray", "other-config"
+		if d != o.dict {
+			which = "isdict"
+		}
+		if o.holder {
+			who = "holder"
+		}
+		h.fail("remove-changes-kind:"+which+":"+who, "%s answered IsDict=%v IsArray=%v before the removal and IsDict=%v IsArray=%v after it", o.what, o.dict, o.arr, d, a)
+		return
+	}
+}
+
 // holderOf returns the container holding the setting addressed by fs below root.
 func holderOf(root *model.Node, fs []model.Fld) (*model.Node, bool) {
 	if len(fs) == 1 {
